@@ -3,7 +3,14 @@ package main
 // SplitMix64: every random choice of the harness derives from one state seeded by VERIF_SEED.
 type Rand struct{ s uint64 }
 
-func NewRand(seed uint64) *Rand { return &Rand{s: seed*0x9E3779B97F4A7C15 + 0x1234567} }
+// NewRand mixes the seed before use: consecutive seeds must give unrelated streams (SplitMix64 adds the
+// golden-ratio constant at every step, so a linear seeding would make seed s+1 the stream of s shifted by one).
+func NewRand(seed uint64) *Rand {
+	r := &Rand{s: seed ^ 0xD1B54A32D192ED03}
+	r.s = r.U64() ^ (seed << 32) ^ 0x8CB92BA72F3D8DD7
+	r.s = r.U64()
+	return r
+}
 
 func (r *Rand) U64() uint64 {
 	r.s += 0x9E3779B97F4A7C15
